@@ -1,6 +1,7 @@
 #!/bin/sh
-# tools/confirm_seeded.sh C07 A  : confirm a sub-agent change in its scratch worktree and file it under /verif/seeded/
-ID=$1; X=$2; WT=/tmp/wt/$ID; OUT=/tmp/wt/${ID}_out/$X; DEST=/verif/seeded/$ID-$X
+# tools/confirm_seeded.sh C07 A [C] : confirm a sub-agent change (/tmp/wt/C07_out/A) in its scratch worktree and file it under
+# /verif/seeded/C07-A (or C07-C when a third argument names the slot: round 2 uses C and D)
+ID=$1; X=$2; Y=${3:-$2}; WT=/tmp/wt/$ID; OUT=/tmp/wt/${ID}_out/$X; DEST=/verif/seeded/$ID-$Y
 [ -f $OUT/patch.diff ] || { echo "no patch"; exit 2; }
 cd $WT || exit 2
 git checkout -q -- . ; git status --short | grep -v '^??' | head -3
@@ -9,7 +10,7 @@ git apply $OUT/patch.diff || { echo "patch does not apply"; exit 2; }
 PYTHONPATH=$WT timeout 120 /venv/bin/python $OUT/demo.py >/tmp/wt/demo_mut.log 2>&1; c1=$?
 t=$(PYTHONPATH=$WT /venv/bin/python -m pytest -q -p no:cacheprovider tests/unit tests/functional -n 8 2>&1 | tail -1)
 git checkout -q -- .
-echo "$ID-$X: demo clean exit=$c0, demo with change exit=$c1, suite with change: $t"
+echo "$ID-$Y: demo clean exit=$c0, demo with change exit=$c1, suite with change: $t"
 case "$t" in *failed*|*error*) ok=0;; *passed*) ok=1;; *) ok=0;; esac
 if [ $c0 -eq 0 ] && [ $c1 -ne 0 ] && [ $ok -eq 1 ]; then
   mkdir -p $DEST; cp $OUT/patch.diff $OUT/demo.py $DEST/
@@ -17,6 +18,7 @@ if [ $c0 -eq 0 ] && [ $c1 -ne 0 ] && [ $ok -eq 1 ]; then
 import json, sys
 try: m = json.load(open(sys.argv[1]))
 except Exception as e: m = {'meta_unreadable': str(e)}
+m['round'] = 2 if sys.argv[2].rstrip('/').split('/')[-2][-1] in 'CD' else 1
 m['confirmed_by_me'] = {'demo_on_clean_tree_exit': int(sys.argv[3]), 'demo_with_change_exit': int(sys.argv[4]), 'suite_with_change': sys.argv[5],
                         'how': 'git apply patch.diff in a scratch worktree of /repo HEAD; PYTHONPATH=<worktree> python demo.py; pytest tests/unit tests/functional -n 8; git checkout -- .'}
 json.dump(m, open(sys.argv[2], 'w'), indent=1)
